@@ -198,6 +198,15 @@ def make_cases(ctx):
                     role=role, sid=sid, ver=ver, key="rsa",
                     group="secp384r1" if ck == "ecdsa384" else "secp256r1",
                     feat="cauth", ckey=ck)
+    for ck in ("rsa", "ecdsa"):
+        yield "pha2-%s" % ck, dict(extra="pha2", ckey=ck, rounds=2)
+    for group in ("secp384r1", "secp521r1"):
+        for sni in (0, 30, 60, 90, 120, 150, 180, 210):
+            for alpns in (0, 3):
+                yield "hrrsize-%s-%d-%d" % (group, sni, alpns), dict(
+                    extra="hrr_size", group=group, sni=sni, alpns=alpns)
+    for sid in (0x1301, 0x1302, 0x1303):
+        yield "pskke-%04x" % sid, dict(extra="psk_ke", sid=sid)
     # overlapping version ranges, default suites
     for role in ("tl_client", "tl_server"):
         for tmin in VERS:
@@ -260,6 +269,8 @@ def run_case(ctx, cid, P):
         return run_negative(ctx, cid, P)
     if P.get("range"):
         return run_range(ctx, cid, P)
+    if P.get("extra"):
+        return run_extra(ctx, cid, P)
     rng = ctx.rng
     sid, ver, role, feat = P["sid"], tuple(P["ver"]), P["role"], P["feat"]
     su = suites.TABLE[sid]
@@ -523,6 +534,172 @@ def run_case(ctx, cid, P):
         ctx.sample({"case": cid, "role": role, "suite": su.name,
                     "ver": pair.VNAME[ver], "key": k, "group": group,
                     "feature": feat, "sizes": sizes})
+
+
+def run_extra(ctx, cid, P):
+    """TLS 1.3 features outside the suite sweep: post-handshake client
+    authentication (twice on one connection), HelloRetryRequest for OpenSSL
+    hellos of many sizes (the padding extension comes and goes), psk_ke
+    resumption"""
+    kind = P["extra"]
+    ver = (3, 4)
+    key = {"role": "tl_server" if kind != "psk_ke" else "tl_client",
+           "feat": kind, "ver": "TLS1.3"}
+    W = {"case": cid, "params": {k: v for k, v in P.items()}}
+    link = net.Link()
+
+    def fail(clause, msg, **kw):
+        ctx.violation(dict(key, clause=clause, **kw), W, msg)
+
+    def hs(conn_gen, sock, o):
+        t = drive.Task("tl", conn_gen, sock)
+        drive_both(t, o, link)
+        ctx.ev()
+        ctx.count("handshakes")
+        W["tl"] = (t.status, repr(t.exc))
+        W["ossl"] = (o.hs_done, repr(o.error))
+        if t.status != "done" or not o.hs_done:
+            fail("mutual_cell_failed", "handshake failed: %r / %r" % (
+                t.exc, o.error), tl=str(outcome(t)),
+                ossl=type(o.error).__name__ if o.error else "no")
+            return False
+        return True
+    if kind == "pha2":
+        ts_ = pair.settings(minVersion=ver, maxVersion=ver)
+        octx = osslpeer.context(False, ver, ver, cert=CKEYS[P["ckey"]][0],
+                                key=CKEYS[P["ckey"]][1])
+        octx.post_handshake_auth = True
+        sock = net.MemSock(link, "server")
+        conn = TLSConnection(sock)
+        o = osslpeer.OsslEnd(link, "client", octx)
+        chain, pk = creds.server("rsa")
+        if not hs(conn.handshakeServerAsync(certChain=chain, privateKey=pk,
+                                            settings=ts_), sock, o):
+            return
+        mine = bytes(open(os.path.join(osslpeer.TESTS,
+                                       CKEYS[P["ckey"]][0])).read().encode())
+        for rnd in range(P["rounds"]):
+            conn.session.clientCertChain = None
+
+            def prog():
+                for r in conn.request_post_handshake_auth():
+                    yield r
+                r = yield from drive.aread(conn, None, 0)
+                return r
+            t = drive.Task("pha", prog(), sock)
+            try:
+                idle = 0
+                for _ in range(400):
+                    a0 = link.activity
+                    if t.live:
+                        sock.real_block = False
+                        t.step()
+                    try:
+                        o.read(16)  # lets OpenSSL answer the request
+                    except ssl.SSLError as e:
+                        # the peer got a fatal alert from us
+                        W["ossl_pha"] = repr(e)
+                        fail("mutual_cell_failed", "post-handshake "
+                             "authentication round %d: OpenSSL reports %r, "
+                             "tlslite %r" % (rnd + 1, e, t.exc),
+                             tl=str(outcome(t)), round=rnd + 1)
+                        return
+                    if not t.live:
+                        o._pump()
+                        break
+                    if link.activity == a0:
+                        idle += 1
+                        if idle > 8:
+                            break
+                    else:
+                        idle = 0
+            except Exception as e:   # noqa
+                ctx.inconc("harness exception in %s: %r" % (cid, e))
+                return
+            ctx.ev()
+            ctx.count("pha_rounds")
+            cc = conn.session.clientCertChain
+            if t.status == "exc":
+                fail("mutual_cell_failed", "post-handshake authentication "
+                     "round %d failed: %r" % (rnd + 1, t.exc),
+                     tl=str(outcome(t)), round=rnd + 1)
+                return
+            if cc is None or cc.getNumCerts() < 1:
+                fail("client_chain_missing", "round %d: no client chain "
+                     "recorded (%s)" % (rnd + 1, t.status), round=rnd + 1)
+                return
+        ctx.cell("tuple", "tl_server|TLS1.3|pha x%d|%s" % (P["rounds"],
+                                                          P["ckey"]))
+        return
+    if kind == "hrr_size":
+        ts_ = pair.settings(minVersion=ver, maxVersion=ver,
+                            eccCurves=[P["group"]], keyShares=[])
+        octx = osslpeer.context(False, ver, ver,
+                                alpn=["proto%d" % i for i in
+                                      range(P["alpns"])] or None)
+        sock = net.MemSock(link, "server")
+        conn = TLSConnection(sock)
+        o = osslpeer.OsslEnd(link, "client", octx,
+                             server_hostname=".".join(
+                                 ["h" * min(50, P["sni"] - i)
+                                  for i in range(0, P["sni"], 50)] +
+                                 ["example"]) if P["sni"] else None)
+        chain, pk = creds.server("rsa")
+        if not hs(conn.handshakeServerAsync(certChain=chain, privateKey=pk,
+                                            settings=ts_), sock, o):
+            return
+        hellos = [r for r in link.recs("c2s") if r.type == 22][:2]
+        ctx.cell("tuple", "tl_server|TLS1.3|hrr|hello%d" % (
+            len(hellos[0].body) // 32 * 32 if hellos else 0))
+        ctx.count("hrr_hello_sizes")
+        return
+    if kind == "psk_ke":
+        su = suites.TABLE[P["sid"]]
+        ts_ = suites.suite_settings(su, ver, psk_modes=["psk_ke"])
+        octx = osslpeer.context(True, ver, ver, cipher_id=P["sid"],
+                                cert=KEYS["rsa"][0], key=KEYS["rsa"][1])
+        octx.options |= 0x400          # SSL_OP_ALLOW_NO_DHE_KEX
+        sess = None
+        for rnd in range(2):
+            link = net.Link()
+            sock = net.MemSock(link, "client")
+            conn = TLSConnection(sock)
+            o = osslpeer.OsslEnd(link, "server", octx)
+
+            def hs2(gen):
+                t = drive.Task("tl", gen, sock)
+                drive_both(t, o, link)
+                return t
+            t = hs2(conn.handshakeClientCert(settings=ts_, session=sess,
+                                             async_=True))
+            ctx.ev()
+            ctx.count("handshakes")
+            W["round"] = rnd
+            if t.status != "done" or not o.hs_done:
+                fail("mutual_cell_failed", "round %d: %r / %r" % (
+                    rnd, t.exc, o.error), tl=str(outcome(t)),
+                    ossl=type(o.error).__name__ if o.error else "no")
+                return
+            # data both ways, lets the tickets arrive
+            data = mon.keystream(cid + str(rnd), 200)
+            try:
+                o.write(data)
+                tr = drive.Task("r", drive.aread(conn, 200, 200), sock)
+                drive_both(tr, o, link)
+                if tr.status != "done" or bytes(tr.result) != data:
+                    fail("data_o2t_corrupt", "%r %r" % (tr.status, tr.exc))
+                    return
+            except Exception as e:   # noqa
+                fail("data_o2t_corrupt", repr(e))
+                return
+            if rnd == 1:
+                if bool(conn.resumed) != bool(o.obj.session_reused):
+                    fail("resumed_disagree", "tlslite %s openssl %s" % (
+                        conn.resumed, o.obj.session_reused))
+                ctx.count("resumed" if conn.resumed else "not_resumed")
+            sess = conn.session
+        ctx.cell("tuple", "tl_client|TLS1.3|psk_ke|%s" % su.name)
+        return
 
 
 def run_range(ctx, cid, P):
